@@ -90,7 +90,16 @@ def run(c):
         elif s["type"] == "deterministic":
             out["sites"].append({"name": k, "type": "deterministic"})
             out["dets"][k] = fhex(np.float32(s["value"]))
+    # the per-pixel likelihood site is the observed / factor site whose log-probability has the shape of the image (a loss may
+    # carry further scalar factors; they enter the total log-density used by the invariance oracle below)
+    cand = [s_ for s_ in tr.values() if s_["type"] == "sample" and (s_.get("is_observed", False) or "Unit" in type(getattr(s_["fn"], "base_dist", s_["fn"])).__name__)]
+    for s_ in cand:
+        if np.shape(np.asarray(s_["fn"].log_prob(s_["value"]))) == (H, W):
+            obs_site = s_
+            break
     lp = np.asarray(obs_site["fn"].log_prob(obs_site["value"]), dtype=np.float64)
+    if lp.shape != (H, W):
+        lp = np.broadcast_to(lp, (H, W)).copy()
     out["logp"] = [[fhex(v) for v in row] for row in lp]
     out["inputs"] = {"mod": [[fhex(v) for v in r] for r in mod], "data": [[fhex(v) for v in r] for r in data],
                      "rms": [[fhex(v) for v in r] for r in rms], "good": [[bool(v) for v in r] for r in good]}
